@@ -169,7 +169,17 @@ var c18Check = core.Mon(c18, "numeric-builtins", func(w *core.W, c *NumFnCase) {
 	case "abs", "ceil", "floor", "round", "roundBank", "toInt":
 		x := args[0]
 		src := c.Fn + "(" + c.argSrc(0) + ")"
-		got, _, ok := decElem(w, c, src, nil)
+		var sdata map[string]interface{}
+		if c.Str {
+			// the number as text (a column read from a file): truncated like the number it spells
+			if !isNumericText(c.Args[0]) || c.Fn != "toInt" {
+				w.Skip("text-argument-outside-the-statement")
+				return
+			}
+			src, sdata = c.Fn+"(s)", map[string]interface{}{"s": c.Args[0]}
+			w.Count("toint_of_numeric_text")
+		}
+		got, _, ok := decElem(w, c, src, sdata)
 		if !ok {
 			return
 		}
@@ -238,6 +248,32 @@ var c18Check = core.Mon(c18, "numeric-builtins", func(w *core.W, c *NumFnCase) {
 		}
 		if !isArg || !bounds {
 			bad(c.Fn, "an argument bounding all others", got.String(), src)
+			return
+		}
+		// the same arguments handed over as a list (spread, directly and through a local, after a written argument)
+		if core.Hash64(src)%4 == 0 {
+			w.Count("maxmin_spread_lists")
+			forms := []string{c.Fn + "([" + strings.Join(parts, ", ") + "]...)", "$l = [" + strings.Join(parts, ", ") + "], " + c.Fn + "($l...)"}
+			for _, f := range forms {
+				v2, err2, p2, pv2 := resolveIn(nil, "[("+f+")]")
+				w.Eval(1)
+				d2, isDec := elem0(v2)
+				if p2 || err2 != nil || !isDec || d2 == nil {
+					bad(c.Fn+"-spread", got.String(), fmt.Sprint(show(v2), " ", err2, pv2), f)
+					return
+				}
+				g2 := obs.DecOf(d2)
+				okBound := false
+				for _, a := range args {
+					if g2.Finite() && g2.Cmp(a) == 0 {
+						okBound = true
+					}
+				}
+				if !okBound || g2.Cmp(got) != 0 {
+					bad(c.Fn+"-spread", got.String(), g2.String(), f+": the same arguments as a spread list")
+					return
+				}
+			}
 		}
 	case "sqrt", "exp", "ln", "log":
 		x := args[0]
@@ -739,6 +775,8 @@ func runC18(w *core.W) {
 		// strings for toFloat / toInt / finite
 		strs := []string{a, "+" + pos, pos + "e2", "abc", "12abc", "1,5", " 1", "1 ", "", "0x10", "1e", "--1", "1.2.3", "one", "1_000", "٣", "１２", "Infinity", "NaN", "-", ".", "e5", "1e5", "-.5", "5.", " ", "  ", "\t", "\n", " \t ", "\u00a0", "\u3000"}
 		s := strs[r.Intn(len(strs))]
+		run(&NumFnCase{Fn: "toInt", Args: []string{a}, Str: true})
+		run(&NumFnCase{Fn: "toInt", Args: []string{[]string{"1.5e3", "9.99e-1", "-2.5E2", "12.75", "7", "1e3", "-0.5", "1.5E+15", "123.456e2", "0.0001e4", "-9.9e0", ".5e1", "5.e1"}[i%13]}, Str: true})
 		run(&NumFnCase{Fn: "toFloat", Args: []string{s}, Str: true})
 		run(&NumFnCase{Fn: "finite", Args: []string{s}, Str: true})
 		// numeric texts with more digits than a float64 holds: the number written, exactly
